@@ -15,6 +15,8 @@ import BctVerif.Props.CoresClust
 import BctVerif.Props.CoresChar
 import BctVerif.Props.CoresEff
 import BctVerif.Props.CoresWalks
+import BctVerif.Props.CoresMod
+import BctVerif.Props.CoresSynth
 
 /-!
 # T-gen for core update steps — the link theorems in one place
@@ -37,6 +39,8 @@ modules imported here prove, once and for all extracted values, what a passed ob
 | char (C03) | `Model/CoreIRChar.lean` | `CoresChar`: `pre_spec`, `tail_spec`, `meanC_spec`, `rowMax_spec`, `link_charpath` | `Dist.charpath`, `meanExt`, `eccCells`, `eccOf`, `radiusDiameter` |
 | eff (C03) | `Model/CoreIREff.lean` (statement language of `Model/CoreIRBin.lean`) | `CoresEff`: `body_spec`, `loop_spec`, `inner_spec`, `sumExt_offDiag`, `link_efficiency_bin` | `Dist.binLoop`, `binRaw`, `distBin`, `meanInvOff`, `efficiencyBin` |
 | walks (C18) | `Model/CoreIRWalks.lean` (expressions of `Model/CoreIRClust.lean`) | `CoresWalks`: `pre_spec`, `tail_spec`, `link_pagerank`, `link_pagerank_model`, `solve_diag_unique`, `link_mfpt_model` | `Walks.colDeg`, `prMat`, `prior`, `solves`, `pagerank`; `Walks.transition`, `fundArg`, `isInvOf`, `mfpt` |
+| modq (C02, C07) | `Model/CoreIRMod.lean` (expressions of `Model/CoreIRClust.lean`), `Model/CoreIRPin.lean` | `CoresMod`: `link_mod_und`, `link_mod_dir` (the other routines of the family are source pins without link theorems) | `Modularity.modularityUndGiven`, `modularityDirGiven` |
+| synth (C20) | `Model/CoreIRSynth.lean`, `Model/CoreIRPin.lean` | `CoresSynth`: `triu_diff`, `step_spec`, `loop_spec`, `removeI_spec`, `link_makeringlattice` (`makerandCIJdegreesfixed` is a source pin without a link theorem) | `Synth.superDiag`, `band`, `ringFill`, `removeExcess`, `ringLattice` |
 | clust (C09) | `Model/CoreIRClust.lean` | `CoresClust`: `perNode_cell`, `link_cc_bd`, `link_cc_wd`, `link_cc_wu`, `link_cc_bu`, `link_trans_bd`, `link_trans_bu`, `link_trans_wd`, `link_trans_wu` | `Cluster.ccBd`, `ccWd`, `ccWu`, `ccBu`, `transBd`, `transBu`, `transWd`, `transWu` (`perNode`, `gdiv`, `ccFagiolo`, `transFagiolo`) |
 | reach (C03) | `Model/CoreIRReach.lean` | `CoresReach`: `step_spec`, `rec_spec`, `link_reachdist` | `Dist.reachStep`, `reachGo`, `reachOutCell`, `reachdist` |
 | util (C17, C06) | `Model/CoreIRUtil.lean` | `CoresUtil`: `link_teachers_round`, `link_threshold_absolute`, `link_binarize`, `link_normalize`, `link_invert`, `link_logtransform`, `link_cuberoot`, `link_pick_four`, `link_weight_conversion`; `CoresTp` (`Model/CoreIRTp.lean`): `link_threshold_proportional` | `Thresh.teachersRound/thresholdAbsolute/binarize/normalize/invert/weightConversion/thresholdProportional`, `Signed.pickFour` |
